@@ -54,6 +54,18 @@ func VerifStubOpenStream(s *yamux.Session) (*yamux.Stream, error) {
 	return &yamux.Stream{}, nil
 }
 
+// VerifPeerClosed: the client end of the session's connection has closed.
+var VerifPeerClosed = map[*yamux.Session]bool{}
+
+func vIsClosed(s *yamux.Session) bool {
+	for _, x := range vClosed {
+		if x == s {
+			return true
+		}
+	}
+	return false
+}
+
 func VerifStubYamuxServer(conn io.ReadWriteCloser, config *yamux.Config) (*yamux.Session, error) {
 	s := &yamux.Session{}
 	VerifSessions = append(VerifSessions, s)
@@ -96,6 +108,16 @@ func VerifStubAccept(s *yamux.Session, ctx context.Context) (*yamux.Stream, erro
 			vProbe()
 		}
 		return &yamux.Stream{}, nil
+	case 8: // live: nothing arrives until the session is closed (by either side) or the context ends
+		v.Yield()
+		v.WaitUntil(func() bool { return ctx.Err() != nil || vIsClosed(s) || VerifPeerClosed[s] })
+		if vIsClosed(s) {
+			return nil, yamux.ErrSessionShutdown
+		}
+		if VerifPeerClosed[s] {
+			return nil, net.ErrClosed
+		}
+		return nil, ctx.Err()
 	case 7: // nothing arrives: accept returns only when its context ends
 		if vBlock != nil {
 			vBlock(ctx)
